@@ -1,6 +1,7 @@
 import GridVerif.Props.C05
 import GridVerif.Props.C05.Gen
 import GridVerif.Props.C05.Gen3
+import GridVerif.Props.C05.Gen6
 
 #print axioms GridVerif.C05.indices_spec
 #print axioms GridVerif.C05.slice_shell
@@ -49,3 +50,7 @@ import GridVerif.Props.C05.Gen3
 #print axioms GridVerif.C05.shell_grid_default_is_slice
 #print axioms GridVerif.C05.shell_grid_gen_rejects
 #print axioms GridVerif.C05.default_arguments
+#print axioms GridVerif.C05.gen_shell_independent
+#print axioms GridVerif.C05.gen_shell_unaffected_by_other_shells
+#print axioms GridVerif.C05.gen_get_shell_grid_reads_only
+#print axioms GridVerif.C05.gen_init_sizes_route
